@@ -12,7 +12,7 @@ TABLE = {
     ("P", 0): [3, 5], ("F", 0): [1], ("Cl", 0): [1], ("Br", 0): [1], ("I", 0): [1],
     ("Si", 0): [4],
     ("N", 1): [4], ("O", -1): [1], ("O", 1): [3], ("N", -1): [2], ("C", -1): [3],
-    ("S", -1): [1], ("S", 1): [3], ("P", 1): [4], ("B", -1): [4],
+    ("S", -1): [1], ("S", 1): [3], ("P", 1): [4], ("B", -1): [4], ("C", 1): [3],
 }
 
 MASS = {"H": 1.008, "B": 10.81, "C": 12.011, "N": 14.007, "O": 15.999, "F": 18.998, "Si": 28.085,
